@@ -828,10 +828,10 @@ func (a *Analysis) ruleE1() {
 				bad = true
 			}
 			for _, u := range a.Ef.AddrUse[g] {
-				c, ok := u.(ssa.CallInstruction)
-				if ok && a.LazyGuard[g] != nil && a.isLazyUse(u, g, true) {
+				if a.LazyGuard[g] != nil && a.isLazyUse(u, g, true) {
 					continue // handed to the lazy-construction helper as its guard (T3)
 				}
+				c, ok := u.(ssa.CallInstruction)
 				if !ok || calleeName(c) != "(*sync.Once).Do" {
 					if !a.P.IsTestFunc(u.Parent()) {
 						r.Bad("E1", key, a.P.InstrPos(u), "", "the address of sync.Once %s is used other than as the receiver of Do", g.Name())
@@ -1471,11 +1471,11 @@ func (a *Analysis) finishE1() {
 		ml, el := a.MapList[m], a.EncList[lc.Name]
 		switch {
 		case ml == nil || el == nil:
-			a.R.Unk("T3", "consistent/"+m.Name(), a.P.Pos(m.Pos()), "", "cannot relate the lookup map of %s to the list the encoder uses", lc.Name)
+			a.R.Unk("T3e", "consistent/"+m.Name(), a.P.Pos(m.Pos()), "", "cannot relate the lookup map of %s to the list the encoder uses", lc.Name)
 		case ml != el:
-			a.R.Bad("T3", "consistent/"+m.Name(), a.P.Pos(m.Pos()), "", "%s mnemonics are encoded with %s but validated against the inverse of %s", lc.Name, el.Name(), ml.Name())
+			a.R.Bad("T3e", "consistent/"+m.Name(), a.P.Pos(m.Pos()), "", "%s mnemonics are encoded with %s but validated against the inverse of %s", lc.Name, el.Name(), ml.Name())
 		default:
-			a.R.OK("T3", "consistent/"+m.Name(), a.P.Pos(m.Pos()), "", "%s: encoder list and validator map both come from %s", lc.Name, el.Name())
+			a.R.OK("T3e", "consistent/"+m.Name(), a.P.Pos(m.Pos()), "", "%s: encoder list and validator map both come from %s", lc.Name, el.Name())
 		}
 	}
 }
